@@ -262,6 +262,7 @@ pub fn run(ctx: &mut Ctx) {
                 ctx.rep.count("attack", a.name);
                 ctx.rep.count("limit", &l.to_string());
                 watchdog::enter(&format!("c06 {} L={} path={}", a.name, l, path));
+                crate::util::breadcrumb(&case(&a.file, l, flags, path, a.name));
                 let m = measure(&a.file, l, flags, path, 2000);
                 watchdog::leave();
                 match m {
@@ -415,6 +416,7 @@ pub fn replay(ctx: &mut Ctx, c: &J) {
     let flags = c.get("flags").and_then(|f| f.as_i64()).unwrap_or(0) as u8;
     let path = c.get("path").and_then(|f| f.as_i64()).unwrap_or(0) as u8;
     ctx.rep.eval(true, fnv64(&file));
+    crate::util::breadcrumb(c);
     match measure(&file, l, flags, path, 2000) {
         Err(p) => ctx.rep.violation("oracle", "panic/replay", &p, c.clone()),
         Ok(m) => {
